@@ -59,6 +59,7 @@ type VFunc struct {
 	Fn   *ssa.Function
 	Bind []Val
 	ID   *Term
+	Con  *Contract // the `param` contract of the function-typed parameter this value came in through (travels with the value into helpers)
 }
 
 type VMap struct {
